@@ -96,10 +96,20 @@ type ctxSpec struct {
 	proverID     uint64 // 0 = defaultProver
 	extractClone bool   // an ExtractBytes happened on the session transcript before it was cloned for the proof
 	sub          bool   // SubContext of the same quorum (appends the sub-quorum label)
+	late         bool   // one extra AppendBytes AFTER the prover/verifier was constructed on the context, before Prove/Verify
+}
+
+// lateHooks: what happens to a context between NewProver/NewVerifier and Prove/Verify (keyed by the context object).
+var lateHooks sync.Map
+
+func runLate(ctx *session.Context) {
+	if f, ok := lateHooks.LoadAndDelete(ctx); ok {
+		f.(func())()
+	}
 }
 
 func (s ctxSpec) String() string {
-	return fmt.Sprintf("party=%d seed=%d sidOnly=%v extra=%v proverID=%d extractClone=%v sub=%v", s.party, s.seed, s.sidOnly, s.extra, s.proverID, s.extractClone, s.sub)
+	return fmt.Sprintf("party=%d seed=%d sidOnly=%v extra=%v proverID=%d extractClone=%v sub=%v late=%v", s.party, s.seed, s.sidOnly, s.extra, s.proverID, s.extractClone, s.sub, s.late)
 }
 
 func (s ctxSpec) build() *session.Context {
@@ -124,6 +134,9 @@ func (s ctxSpec) build() *session.Context {
 	}
 	if s.sidOnly {
 		flipSID(c)
+	}
+	if s.late {
+		lateHooks.Store(c, func() { c.Transcript().AppendBytes(extraLabel, []byte{0}) })
 	}
 	return c
 }
@@ -262,6 +275,7 @@ func (c *sigCase[X, W, A, S, Z]) ni() *niInst {
 		if err != nil {
 			return nil, err
 		}
+		runLate(ctx)
 		x, w := c.inst(inst)
 		return pr.Prove(x, w)
 	}
@@ -279,6 +293,7 @@ func (c *sigCase[X, W, A, S, Z]) ni() *niInst {
 		if err != nil {
 			return err
 		}
+		runLate(ctx)
 		return v.Verify(c.pick(sel), proof)
 	}
 	n.recode = func(cn compiler.Name, proof []byte) ([]byte, error) {
